@@ -1845,7 +1845,48 @@ func init() {
 	register(&Rule{ID: "R08.7", Props: []string{"C08", "C09", "C14"}, Floor: 3, Title: "one fresh record per decoded message: a decoder call that runs once per loop iteration decodes into a variable allocated in that iteration (decoders keep the fields an input omits and reuse byte slices, and the address is often handed on)", Run: r087})
 }
 
+// r087buffers: messages that arrive one by one (pubsub, RPC) are decoded
+// from their own bytes. A decoder built once over a local bytes.Buffer that
+// each iteration of the receive loop appends to is a stream decoder over
+// the concatenation of all messages: one malformed or over-long message
+// leaves bytes (and the decoder's sticky error) behind, and no later message
+// is decoded correctly.
+func r087buffers(c *Ctx, r *R) {
+	c.P.RepoFuncs(func(f *ssa.Function) {
+		if f.Blocks == nil || f.Pkg == nil || strings.HasPrefix(f.Pkg.Pkg.Path(), ModPath+"/test") {
+			return
+		}
+		for _, nd := range findCalls(f, false, "codec.NewDecoder", "encoding/json.NewDecoder", "msgpack.NewDecoder") {
+			args := nd.Common().Args
+			if len(args) == 0 {
+				continue
+			}
+			src := args[0]
+			if mi, ok := src.(*ssa.MakeInterface); ok {
+				src = mi.X
+			}
+			if !strings.HasSuffix(src.Type().String(), "*bytes.Buffer") {
+				continue
+			}
+			for _, w := range findCalls(f, false, "(*bytes.Buffer).Write", "(*bytes.Buffer).WriteString", "(*bytes.Buffer).ReadFrom") {
+				if stripLocal(w.Common().Args[0]) != stripLocal(src) {
+					continue
+				}
+				// the write is in a loop that does not contain the decoder's construction
+				wb := w.Block()
+				for d := wb; d != nil; d = d.Idom() {
+					if inNaturalLoop(wb, d) && !inNaturalLoop(nd.Block(), d) {
+						r.Bad("shared-decoder:"+f.String(), nd.Pos(), "%s builds one decoder over a buffer that every iteration of the loop at %s appends a new message to: the messages are decoded as one stream, so trailing bytes or a decode error of one message corrupt or block every later one", f.Name(), c.P.Pos(w.Pos()))
+						break
+					}
+				}
+			}
+		}
+	})
+}
+
 func r087(c *Ctx, r *R) {
+	r087buffers(c, r)
 	decoders := []string{"encoding/json.Decoder).Decode", "codec.Decoder).Decode", "=encoding/json.Unmarshal", "msgpack.Decoder).Decode", "proto.Unmarshal", "api.Pin).ProtoUnmarshal"}
 	n := 0
 	c.P.RepoFuncs(func(f *ssa.Function) {
@@ -2576,5 +2617,163 @@ func r1513(c *Ctx, r *R) {
 	})
 	if n == 0 {
 		r.Und("merge", token.NoPos, "no mergo.Merge call found (the datastore option blocks were expected)")
+	}
+}
+
+func init() {
+	register(&Rule{ID: "R01.7", Props: []string{"C01", "C04", "C17"}, Floor: 3, Title: "a raft operation redirected to the leader arrives at its own endpoint: the method name LogPin, LogUnpin, AddPeer and RmPeer hand to commit/redirectToLeader is their own (an unpin forwarded as \"LogPin\" is applied as a pin by the leader)", Run: r017})
+	register(&Rule{ID: "R09.10", Props: []string{"C09"}, Floor: 2, Title: "the store's per-peer lookups answer 'nothing' only when nothing is stored, and the peerset filter keeps members only: PeerLatest returns nil only for a missing window or an empty one (the failure detector reads nil as 'failed'), PeersetFilter returns only metrics whose peer passed the membership test", Run: r0910})
+	register(&Rule{ID: "R06.10", Props: []string{"C06", "C05"}, Floor: 1, Title: "the operation tracker lists every operation it holds: GetAll appends one entry per tracked operation, unconditionally (errored operations are exactly the cancelled ones that are kept)", Run: r0610})
+}
+
+func r017(c *Ctx, r *R) {
+	n := 0
+	for _, name := range []string{"LogPin", "LogUnpin", "AddPeer", "RmPeer"} {
+		f := c.fn(r, "consensus/raft", "Consensus."+name)
+		if f == nil {
+			continue
+		}
+		for _, ci := range findCalls(f, false, "raft.Consensus).commit", "raft.Consensus).redirectToLeader") {
+			for _, a := range ci.Common().Args {
+				s, isS := constString(a)
+				if !isS {
+					continue
+				}
+				n++
+				r.Check(s == name, "redirect-target:"+name, ci.Pos(), name+" is forwarded to the leader's "+name+" endpoint", fmt.Sprintf("%s hands the method name %q to the redirect: on a non-leader the operation reaches the leader's %s endpoint and is applied as that operation", name, s, s))
+			}
+		}
+	}
+	if n == 0 {
+		r.Und("redirect-target", token.NoPos, "no constant method name handed to commit/redirectToLeader found")
+	}
+}
+
+func r0910(c *Ctx, r *R) {
+	// PeerLatest: nil only when there is no window or Latest() failed
+	if f := c.fn(r, "monitor/metrics", "Store.PeerLatest"); f != nil {
+		for _, lf := range returnLeaves(f, 0) {
+			if !isNilConst(lf.Val) {
+				continue
+			}
+			ok := lf.GuardedBy(func(g Guard) bool {
+				if l, idx := mapLookupOf(g.Cond); l != nil && idx == 1 && !g.Branch {
+					return true // not found in byName / byPeer
+				}
+				return gNil(g, true, func(v ssa.Value) bool {
+					cc, _ := originCall(v)
+					return cc != nil && nameMatches(callName(cc.Common()), "metrics.Window).Latest")
+				})
+			})
+			r.Check(ok, "peerlatest:nil-only-when-absent", lf.Pos, "nil only when no metric is stored for the pair", "PeerLatest answers nil for a pair that has a stored latest metric (a test other than 'no window' / 'empty window'): the failure detector takes nil for 'failed', so a peer whose latest metric is unexpired is alerted and its metrics are dropped")
+		}
+	}
+	// PeersetFilter: what is returned was built from elements that passed
+	// the membership test; the input list itself is never handed back
+	if f := c.fn(r, "monitor/metrics", "PeersetFilter"); f != nil {
+		okAll, n := true, 0
+		why := ""
+		for _, lf := range returnLeaves(f, 0) {
+			n++
+			if paramIndex(f, lf.Val) == 0 {
+				// the unfiltered input: only when it is empty
+				empty := lf.GuardedBy(func(g Guard) bool {
+					x, op, k, ok := cmpIntConst(g.Cond)
+					if !ok {
+						return false
+					}
+					lc, _ := originCall(x)
+					if lc == nil || callName(lc.Common()) != "builtin.len" || paramIndex(f, lc.Common().Args[0]) != 0 {
+						return false
+					}
+					switch {
+					case op == token.EQL && k == 0, op == token.LEQ && k == 0, op == token.LSS && k == 1:
+						return g.Branch
+					case op == token.NEQ && k == 0, op == token.GTR && k == 0, op == token.GEQ && k == 1:
+						return !g.Branch
+					}
+					return false
+				}) && !lf.GuardedBy(func(g Guard) bool { return false })
+				// `len(peerset) == 0 || len(metrics) == 0` joins two reasons:
+				// every path to the return must establish the emptiness of
+				// the metrics themselves
+				if !empty || !mustPass(lf.Block, func(g Guard) bool {
+					x, op, k, ok := cmpIntConst(g.Cond)
+					if !ok {
+						return false
+					}
+					lc, _ := originCall(x)
+					if lc == nil || callName(lc.Common()) != "builtin.len" || paramIndex(f, lc.Common().Args[0]) != 0 {
+						return false
+					}
+					switch {
+					case op == token.EQL && k == 0, op == token.LEQ && k == 0, op == token.LSS && k == 1:
+						return g.Branch
+					case op == token.NEQ && k == 0, op == token.GTR && k == 0, op == token.GEQ && k == 1:
+						return !g.Branch
+					}
+					return false
+				}) {
+					okAll = false
+					why = "the unfiltered input is returned on a path that did not establish that it is empty (e.g. for an empty peerset)"
+				}
+				continue
+			}
+		}
+		// every append of an input element is under the membership test
+		for _, ci := range callsIn(f) {
+			if callName(ci.Common()) != "builtin.append" {
+				continue
+			}
+			member := guardedBy(ci.Block(), func(g Guard) bool {
+				l, idx := mapLookupOf(g.Cond)
+				return l != nil && idx == 1 && g.Branch
+			})
+			if !member {
+				okAll = false
+				why = "a metric is kept without the membership test"
+			}
+		}
+		r.Check(okAll && n > 0, "peersetfilter:members-only", f.Pos(), "only metrics of peerset members are returned", "PeersetFilter can return metrics of peers that are not in the peerset: "+why+" - with a known, empty peerset every stored metric of non-members is reported and used for allocation")
+	}
+}
+
+func r0610(c *Ctx, r *R) {
+	f := c.fn(r, "pintracker/optracker", "OperationTracker.GetAll")
+	if f == nil {
+		return
+	}
+	n := 0
+	for _, ci := range callsIn(f) {
+		if callName(ci.Common()) != "builtin.append" {
+			continue
+		}
+		n++
+		// the only test above the append is the loop's own condition
+		ok := true
+		for _, g := range guardsOf(ci.Block()) {
+			if g.Derived {
+				continue
+			}
+			if _, isNext := stripLocal(g.Cond).(*ssa.Extract); isNext {
+				if ex := stripLocal(g.Cond).(*ssa.Extract); ex.Index == 0 {
+					if _, isN := ex.Tuple.(*ssa.Next); isN {
+						continue
+					}
+				}
+			}
+			if x, op, _, isCmp := cmpIntConst(g.Cond); isCmp && op == token.LSS {
+				_ = x
+				continue // index loop
+			}
+			if b, isB := g.Cond.(*ssa.BinOp); isB && b.Op == token.LSS {
+				continue // i < len(...)
+			}
+			ok = false
+		}
+		r.Check(ok, "getall:every-operation", ci.Pos(), "every tracked operation is listed", "GetAll skips some tracked operations (a test inside the loop): operations that failed are kept cancelled in the tracker and are known nowhere else - a failed unpin disappears from StatusAll and is never retried by RecoverAll")
+	}
+	if n == 0 {
+		r.Und("getall", f.Pos(), "GetAll appends nothing: shape not recognised")
 	}
 }
